@@ -301,3 +301,667 @@ Proof.
   - cbn [flat_map map]. rewrite app_nil_r. reflexivity.
   - rewrite IH by discriminate. cbn [map app]. reflexivity.
 Qed.
+
+(* ====================================================================== *)
+(* names                                                                   *)
+(* ====================================================================== *)
+
+(* a name the zone-file syntax can express: well formed, labels ASCII and dot-free (D7) *)
+Definition name_ok (n : dname) : Prop := wf_name n /\ ascii_nodot n.
+
+Definition mk (front : list label) : dname := {| labels := front ++ [[]]; nlen := sum_lens (front ++ [[]]) |}.
+
+Lemma name_ok_dest n : name_ok n ->
+  exists front, n = mk front /\ good_front front /\ Forall ascii_label front /\ sum_lens (front ++ [[]]) <= 255.
+Proof.
+  intros [Hw Ha]. destruct (wf_name_dest n Hw) as (front & -> & Hf & Hs). exists front.
+  unfold ascii_nodot in Ha. cbn [labels] in Ha. apply Forall_app in Ha as [Ha _]. auto.
+Qed.
+
+Lemma root_name_ok : name_ok root_domain.
+Proof. split; [apply root_wf|]. unfold ascii_nodot. cbn. repeat constructor. Qed.
+
+(* lower-case ASCII: what the text of such a name is made of *)
+Definition lc (c : N) : Prop := c < 128 /\ is_upper c = false.
+
+Lemma dotjoin_app a b : dotjoin (a ++ b) = dotjoin a ++ dotjoin b.
+Proof. unfold dotjoin. rewrite map_app, concat_app. reflexivity. Qed.
+
+Lemma dotjoin_cons l t : dotjoin (l :: t) = l ++ 46 :: dotjoin t.
+Proof. unfold dotjoin. cbn [map concat]. rewrite <- app_assoc. reflexivity. Qed.
+
+Lemma join_dots_snoc pre l : join_dots (pre ++ [l]) = dotjoin pre ++ l.
+Proof.
+  induction pre as [|x pre IH]; [reflexivity|].
+  rewrite dotjoin_cons, <- app_assoc. cbn [app]. rewrite <- IH. cbn [join_dots].
+  destruct (pre ++ [l]) eqn:E; [destruct pre; discriminate|reflexivity].
+Qed.
+
+Lemma join_dots_dot pre rest : pre <> [] -> join_dots pre ++ 46 :: rest = dotjoin pre ++ rest.
+Proof.
+  intro H. destruct (exists_last H) as (p & l & ->).
+  rewrite join_dots_snoc, dotjoin_app, dotjoin_cons. change (dotjoin []) with (@nil N).
+  rewrite <- !app_assoc. reflexivity.
+Qed.
+
+Lemma dotjoin_forall (P : N -> Prop) front : P 46 -> Forall (Forall P) front -> Forall P (dotjoin front).
+Proof.
+  intros H46 H. induction H as [|l t Hl _ IH]; [constructor|].
+  rewrite dotjoin_cons. apply Forall_app. split; [exact Hl|constructor; assumption].
+Qed.
+
+Lemma join_dots_forall (P : N -> Prop) pre : P 46 -> Forall (Forall P) pre -> Forall P (join_dots pre).
+Proof.
+  intros H46 H. destruct pre as [|x p]; [constructor|].
+  destruct (exists_last (l := x :: p) ltac:(discriminate)) as (q & l & E). rewrite E in *.
+  rewrite join_dots_snoc. apply Forall_app in H as [Hq Hl]. apply Forall_cons_iff in Hl as [Hl _].
+  apply Forall_app. split; [apply dotjoin_forall; assumption|exact Hl].
+Qed.
+
+Lemma lc_46 : lc 46.
+Proof. split; [lia|reflexivity]. Qed.
+
+Lemma front_lc front : good_front front -> Forall ascii_label front -> Forall (Forall lc) front.
+Proof.
+  intros Hf Ha. unfold good_front in Hf. rewrite Forall_forall in *. intros l Hl.
+  destruct (Hf l Hl) as [_ [_ Hw]]. specialize (Ha l Hl). unfold ascii_label in Ha.
+  rewrite Forall_forall in *. intros c Hc. split; [apply (Ha c Hc)|apply (Hw c Hc)].
+Qed.
+
+Lemma last_opt_snoc {A} (s : list A) c : last_opt (s ++ [c]) = Some c.
+Proof.
+  induction s as [|x s IH]; [reflexivity|]. cbn [app last_opt].
+  destruct (s ++ [c]) eqn:E; [destruct s; discriminate|]. exact IH.
+Qed.
+
+Lemma is_root_front front len : good_front front -> front <> [] ->
+  is_root {| labels := front ++ [[]]; nlen := len |} = false.
+Proof.
+  intros Hf Hne. destruct front as [|l f]; [contradiction|]. apply Forall_cons_iff in Hf as [[Hl _] _].
+  unfold is_root. cbn [labels app]. destruct l; [contradiction|]. cbn [label_is_empty]. apply andb_false_r.
+Qed.
+
+Lemma to_dotted_mk front : good_front front -> front <> [] -> to_dotted_string (mk front) = dotjoin front.
+Proof. intros Hf Hne. apply to_dotted_nonroot; [exact Hne|apply good_front_nonempty; exact Hf]. Qed.
+
+Lemma dotjoin_last front : front <> [] -> exists X, dotjoin front = X ++ [46].
+Proof.
+  intro H. destruct (exists_last H) as (p & l & ->). rewrite dotjoin_app, dotjoin_cons.
+  change (dotjoin []) with (@nil N). exists (dotjoin p ++ l). rewrite <- app_assoc. reflexivity.
+Qed.
+
+Lemma to_dotted_last n : name_ok n -> exists X, to_dotted_string n = X ++ [46].
+Proof.
+  intro H. destruct (name_ok_dest n H) as (front & -> & Hf & _ & _).
+  destruct front as [|l f] eqn:E; [exists []; reflexivity|]. rewrite <- E in *.
+  rewrite to_dotted_mk by (try assumption; subst; discriminate). apply dotjoin_last. subst; discriminate.
+Qed.
+
+Lemma to_dotted_lc n : name_ok n -> Forall lc (to_dotted_string n).
+Proof.
+  intro H. destruct (name_ok_dest n H) as (front & -> & Hf & Ha & _).
+  destruct front as [|l f] eqn:E; [constructor; [apply lc_46|constructor]|]. rewrite <- E in *.
+  rewrite to_dotted_mk by (try assumption; subst; discriminate).
+  apply dotjoin_forall; [apply lc_46|apply front_lc; assumption].
+Qed.
+
+Lemma lc_ascii s : Forall lc s -> forallb is_ascii s = true.
+Proof.
+  intro H. apply forallb_forall. intros c Hc. rewrite Forall_forall in H. destruct (H c Hc) as [Hlt _].
+  unfold is_ascii. apply N.ltb_lt. exact Hlt.
+Qed.
+
+Lemma lc_octets s : Forall lc s -> octets s.
+Proof. unfold octets. apply Forall_impl. intros c [H _]. lia. Qed.
+
+Lemma lc_noupper s : Forall lc s -> noupper s.
+Proof. unfold noupper. apply Forall_impl. intros c [_ H]. exact H. Qed.
+
+Lemma lc_utf8 s : Forall lc s -> utf8 s = s.
+Proof. intro H. apply utf8_ascii. revert H. apply Forall_impl. intros c [H _]. exact H. Qed.
+
+(* an absolute name is read back whatever the origin *)
+Lemma parse_domain_abs origin n : name_ok n -> parse_domain origin (to_dotted_string n) = Ok n.
+Proof.
+  intro H. destruct (to_dotted_last n H) as [X E]. pose proof (to_dotted_lc n H) as Hlc.
+  unfold parse_domain.
+  assert (E1 : is_nil (to_dotted_string n) = false) by (rewrite E; destruct X; reflexivity).
+  assert (E3 : leqb (to_dotted_string n) S_AT = false).
+  { apply leqb_false. rewrite E. intro F. change S_AT with ([] ++ [64]) in F. apply app_inj_tail in F as [_ F]. discriminate. }
+  rewrite E1, (lc_ascii _ Hlc), E3. cbn [negb]. unfold last_char. rewrite E, last_opt_snoc. cbn [bind].
+  change (46 =? 46) with true. cbn iota. rewrite <- E, dotted_roundtrip by apply H. reflexivity.
+Qed.
+
+Lemma parse_domain_at apex : parse_domain (Some apex) S_AT = Ok apex.
+Proof. reflexivity. Qed.
+
+Lemma from_rel_nonempty o s : s <> [] ->
+  from_relative_dotted_string o s
+  = if ends_with_dot s then from_dotted_string s
+    else if starts_dot (to_dotted_string o) then from_dotted_string (s ++ to_dotted_string o)
+         else from_dotted_string (s ++ 46 :: to_dotted_string o).
+Proof. intro H. unfold from_relative_dotted_string. destruct s; [contradiction|]. rewrite match_dot. reflexivity. Qed.
+
+Lemma ends_with_dot_snoc X c : c <> 46 -> ends_with_dot (X ++ [c]) = false.
+Proof.
+  intro Hc. unfold ends_with_dot. rewrite rev_app_distr. change (rev [c] ++ rev X) with (c :: rev X).
+  rewrite match_dot, (starts_dot_cons _ _ Hc). reflexivity.
+Qed.
+
+(* a name strictly beneath the origin, written without it *)
+Lemma parse_domain_rel pre afront :
+  name_ok (mk (pre ++ afront)) -> name_ok (mk afront) -> afront <> [] -> pre <> [] -> join_dots pre <> S_AT ->
+  parse_domain (Some (mk afront)) (join_dots pre) = Ok (mk (pre ++ afront)).
+Proof.
+  intros Hn Ha Hane Hpne Hat.
+  destruct (name_ok_dest _ Hn) as (nf & En & Hnf & Hna & _).
+  assert (nf = pre ++ afront).
+  { unfold mk in En. inversion En as [[E1 E2]]. apply app_inj_tail in E1 as [E1 _]. symmetry. exact E1. }
+  subst nf. clear En.
+  destruct (name_ok_dest _ Ha) as (af & Ea & Haf & Haa & _).
+  assert (af = afront).
+  { unfold mk in Ea. inversion Ea as [[E1 E2]]. apply app_inj_tail in E1 as [E1 _]. symmetry. exact E1. }
+  subst af. clear Ea.
+  pose proof (front_lc _ Hnf Hna) as Hlc. apply Forall_app in Hlc as [Hlcp _].
+  pose proof (join_dots_forall lc pre lc_46 Hlcp) as Htxt.
+  (* the last character is not a dot *)
+  destruct (exists_last Hpne) as (p & l & Ep).
+  assert (Hl : l <> [] /\ ~ In 46 l).
+  { unfold good_front in Hnf. rewrite Ep, <- app_assoc in Hnf, Hna. apply Forall_app in Hnf as [_ Hnf]. apply Forall_app in Hna as [_ Hna].
+    apply Forall_cons_iff in Hnf as [[Hne _] _]. apply Forall_cons_iff in Hna as [Hal _].
+    split; [exact Hne|apply ascii_label_nodot; exact Hal]. }
+  destruct Hl as [Hlne Hlnd]. destruct (exists_last Hlne) as (l' & c & El).
+  assert (Hc : c <> 46) by (intro; subst c; apply Hlnd; rewrite El; apply in_or_app; right; left; reflexivity).
+  assert (Etxt : join_dots pre = (dotjoin p ++ l') ++ [c]).
+  { rewrite Ep, join_dots_snoc, El, app_assoc. reflexivity. }
+  unfold parse_domain.
+  assert (E1 : is_nil (join_dots pre) = false) by (rewrite Etxt; destruct (dotjoin p ++ l'); reflexivity).
+  rewrite E1, (lc_ascii _ Htxt), (leqb_false _ _ Hat). cbn [negb]. unfold last_char. rewrite Etxt at 1. rewrite last_opt_snoc. cbn [bind].
+  rewrite (proj2 (N.eqb_neq c 46) Hc).
+  rewrite from_rel_nonempty by (rewrite Etxt; destruct (dotjoin p ++ l'); discriminate).
+  assert (Eed : ends_with_dot (join_dots pre) = false).
+  { rewrite Etxt. apply ends_with_dot_snoc. exact Hc. }
+  rewrite Eed. rewrite (to_dotted_mk afront Haf Hane).
+  assert (Esd : starts_dot (dotjoin afront) = false).
+  { destruct afront as [|a0 af]; [contradiction|]. apply Forall_cons_iff in Haf as [[Hne0 _] _]. apply Forall_cons_iff in Haa as [Ha0 _].
+    rewrite dotjoin_cons. destruct a0 as [|b a0]; [contradiction|]. apply Forall_cons_iff in Ha0 as [[_ Hb] _].
+    cbn [app]. apply starts_dot_cons. exact Hb. }
+  rewrite Esd, (join_dots_dot pre (dotjoin afront) Hpne), <- dotjoin_app.
+  pose proof (dotted_roundtrip _ (proj1 Hn) (proj2 Hn)) as Ed.
+  rewrite (to_dotted_mk _ Hnf) in Ed by (destruct pre; [contradiction|discriminate]).
+  unfold label, byte in *. rewrite Ed. reflexivity.
+Qed.
+
+(* ---- owners: parse_domain_or_wildcard ---- *)
+
+Lemma pdw_plain o s : s <> [] -> s <> S_STAR -> (forall t, s <> 42 :: 46 :: t) ->
+  parse_domain_or_wildcard o s = let* name := parse_domain o s in normal_or_star name.
+Proof.
+  intros Hne Hs Hsd. unfold parse_domain_or_wildcard.
+  destruct s as [|c0 [|c1 t]]; [contradiction| |]; cbn [is_nil]; rewrite (leqb_false _ _ Hs);
+    cbn [len_ge len_is idx nth_error bind]; [reflexivity|].
+  destruct (N.eqb_spec c0 42) as [->|H0]; cbn [bind]; [|reflexivity].
+  destruct (N.eqb_spec c1 46) as [->|H1]; [exfalso; exact (Hsd t eq_refl)|reflexivity].
+Qed.
+
+Lemma pdw_star_dot o s : s <> [] ->
+  parse_domain_or_wildcard o (42 :: 46 :: s) = let* name := parse_domain o s in Ok (MWildcard name).
+Proof.
+  intro Hne. unfold parse_domain_or_wildcard. cbn [is_nil].
+  assert (E : leqb (42 :: 46 :: s) S_STAR = false) by (apply leqb_false; discriminate).
+  rewrite E. cbn [len_ge idx nth_error bind]. change (42 =? 42) with true. cbn iota. cbn [bind].
+  change (46 =? 46) with true. cbn iota. destruct s as [|x s]; [contradiction|]. reflexivity.
+Qed.
+
+Definition first_label (n : dname) : label := match labels n with l :: _ => l | [] => [] end.
+
+Lemma normal_or_star_normal n : first_label n <> S_STAR -> normal_or_star n = Ok (MNormal n).
+Proof.
+  unfold first_label, normal_or_star. intro H.
+  destruct (labels n) as [|l0 [|l1 t]]; cbn [len_ge idx nth_error bind]; try reflexivity.
+  rewrite (leqb_false _ _ H). reflexivity.
+Qed.
+
+(* a text that starts with a label other than "*" is not the wildcard syntax *)
+Lemma not_star_text l0 rest : l0 <> [] -> l0 <> S_STAR -> ~ In 46 l0 -> (rest = [] \/ exists r, rest = 46 :: r) ->
+  l0 ++ rest <> [] /\ l0 ++ rest <> S_STAR /\ forall t, l0 ++ rest <> 42 :: 46 :: t.
+Proof.
+  intros Hne Hs Hnd Hrest. destruct l0 as [|c0 l0]; [contradiction|]. split; [discriminate|]. split.
+  - destruct Hrest as [->|[r ->]].
+    + rewrite app_nil_r. exact Hs.
+    + intro F. destruct l0; discriminate.
+  - intros t F. cbn [app] in F. inversion F as [[F0 F1]]. subst c0.
+    destruct l0 as [|c1 l0].
+    + apply Hs. reflexivity.
+    + cbn [app] in F1. inversion F1. subst c1. apply Hnd. right. left. reflexivity.
+Qed.
+
+(* ====================================================================== *)
+(* serialise_domain                                                        *)
+(* ====================================================================== *)
+
+(* the origin in force when the records of Zone::serialise's output are read: the apex if a
+   "$ORIGIN" line was written, none otherwise *)
+Definition zorigin (z : zone) : option dname :=
+  if zone_is_authoritative z && negb (is_root (z_apex z)) then Some (z_apex z) else None.
+
+(* the text serialise_domain writes before escaping *)
+Definition dom_text (z : zone) (name : dname) : list N :=
+  let apex := z_apex z in
+  if is_root apex || negb (zone_is_authoritative z) || negb (is_subdomain_of name apex)
+  then to_dotted_string name
+  else if dname_eqb name apex then S_AT
+  else
+    let relative := join_dots (firstn (length (labels name) - length (labels apex)) (labels name)) in
+    if leqb relative S_AT then to_dotted_string name else relative.
+
+Inductive dom_case (z : zone) (name : dname) : list N -> Prop :=
+| DC_abs : dom_case z name (to_dotted_string name)
+| DC_at : zorigin z = Some name -> dom_case z name S_AT
+| DC_rel pre afront : zorigin z = Some (mk afront) -> name = mk (pre ++ afront) -> afront <> [] -> pre <> [] ->
+                      join_dots pre <> S_AT -> dom_case z name (join_dots pre).
+
+Lemma firstn_app_len {A} (a b : list A) : firstn (length (a ++ b) - length b) (a ++ b) = a.
+Proof.
+  rewrite app_length. replace (length a + length b - length b)%nat with (length a + 0)%nat by lia.
+  rewrite firstn_app_2. cbn [firstn]. apply app_nil_r.
+Qed.
+
+Lemma mk_inj a b : mk a = mk b -> a = b.
+Proof. unfold mk. intro H. injection H as E E2. apply app_inj_tail in E as [E _]. exact E. Qed.
+
+Lemma dom_text_case z name : name_ok (z_apex z) -> name_ok name ->
+  dom_case z name (dom_text z name) /\
+  serialise_domain z name = Ok (serialise_octets (dom_text z name) false).
+Proof.
+  intros Ha Hn. unfold dom_text, serialise_domain.
+  destruct (is_root (z_apex z) || negb (zone_is_authoritative z) || negb (is_subdomain_of name (z_apex z))) eqn:C.
+  { split; [constructor|]. cbn [bind]. rewrite (lc_utf8 _ (to_dotted_lc name Hn)). reflexivity. }
+  apply orb_false_iff in C as [C Hsub]. apply orb_false_iff in C as [Hroot Hauth].
+  apply negb_false_iff in Hsub. apply negb_false_iff in Hauth.
+  assert (Ho : zorigin z = Some (z_apex z)) by (unfold zorigin; rewrite Hauth, Hroot; reflexivity).
+  destruct (dname_eqb name (z_apex z)) eqn:Eeq.
+  { apply dname_eqb_eq in Eeq. split; [apply DC_at; rewrite Ho, Eeq; reflexivity|]. reflexivity. }
+  destruct (name_ok_dest _ Ha) as (afront & Eapex & Haf & Haa & _).
+  destruct (name_ok_dest _ Hn) as (nfront & Ename & Hnf & Hna & _).
+  apply subdomain_is_suffix in Hsub as [pre Hpre]. rewrite Eapex, Ename in Hpre. cbn [mk labels] in Hpre.
+  rewrite app_assoc in Hpre. apply app_inj_tail in Hpre as [Hpre _]. subst nfront.
+  assert (Hane : afront <> []).
+  { intro E. subst afront. rewrite Eapex in Hroot. discriminate. }
+  assert (Hpne : pre <> []).
+  { intro E. subst pre. cbn [app] in Ename. rewrite Ename, Eapex in Eeq.
+    assert (X : dname_eqb (mk afront) (mk afront) = true) by (apply dname_eqb_eq; reflexivity). congruence. }
+  assert (Ekeep : firstn (length (labels name) - length (labels (z_apex z))) (labels name) = pre).
+  { rewrite Ename, Eapex. cbn [mk labels]. rewrite <- app_assoc. apply firstn_app_len. }
+  rewrite Ekeep.
+  assert (Elen : Nat.ltb (length (labels name)) (length (labels (z_apex z))) || (nlen name <? nlen (z_apex z)) = false).
+  { rewrite Ename, Eapex. cbn [mk labels nlen]. apply orb_false_iff. split.
+    - apply PeanoNat.Nat.ltb_ge. rewrite !app_length. lia.
+    - apply N.ltb_ge. rewrite !sum_lens_app. lia. }
+  rewrite Elen. cbv zeta.
+  assert (Erel : to_dotted_string {| labels := pre; nlen := nlen name - nlen (z_apex z) |} = join_dots pre).
+  { unfold to_dotted_string.
+    assert (R : is_root {| labels := pre; nlen := nlen name - nlen (z_apex z) |} = false).
+    { destruct pre as [|l0 p]; [contradiction|]. unfold good_front in Hnf. cbn [app] in Hnf. apply Forall_cons_iff in Hnf as [[Hl0 _] _].
+      unfold is_root. cbn [labels]. destruct l0; [contradiction|]. cbn [label_is_empty]. apply andb_false_r. }
+    rewrite R. reflexivity. }
+  rewrite Erel.
+  destruct (leqb (join_dots pre) S_AT) eqn:Eat.
+  { split; [constructor|]. cbn [bind]. rewrite (lc_utf8 _ (to_dotted_lc name Hn)). reflexivity. }
+  split.
+  - apply DC_rel with (afront := afront); try assumption; [congruence|].
+    intro F. rewrite F in Eat. discriminate.
+  - cbn [bind]. rewrite lc_utf8; [reflexivity|].
+    apply join_dots_forall; [apply lc_46|]. pose proof (front_lc _ Hnf Hna) as Hlc. apply Forall_app in Hlc. apply Hlc.
+Qed.
+
+Lemma serialise_domain_text z name : name_ok (z_apex z) -> name_ok name ->
+  serialise_domain z name = Ok (serialise_octets (dom_text z name) false).
+Proof. intros Ha Hn. apply (dom_text_case z name Ha Hn). Qed.
+
+(* the text is non-empty lower-case ASCII *)
+Lemma dom_text_lc z name : name_ok (z_apex z) -> name_ok name -> dom_text z name <> [] /\ Forall lc (dom_text z name).
+Proof.
+  intros Ha Hn. destruct (dom_text_case z name Ha Hn) as [Hc _].
+  destruct Hc as [|Ho|pre afront Ho En Hane Hpne Hat].
+  - destruct (to_dotted_last name Hn) as [X E]. split; [rewrite E; destruct X; discriminate|apply to_dotted_lc; exact Hn].
+  - split; [discriminate|]. constructor; [split; [lia|reflexivity]|constructor].
+  - destruct (name_ok_dest _ Hn) as (nf & En' & Hnf & Hna & _). rewrite En in En'. apply mk_inj in En'. subst nf.
+    pose proof (front_lc _ Hnf Hna) as Hlc. apply Forall_app in Hlc as [Hlcp _]. split.
+    + destruct pre as [|l0 p]; [contradiction|]. unfold good_front in Hnf. cbn [app] in Hnf. apply Forall_cons_iff in Hnf as [[Hl0 _] _].
+      destruct l0; [contradiction|]. cbn [join_dots]. destruct p; discriminate.
+    + apply join_dots_forall; [apply lc_46|exact Hlcp].
+Qed.
+
+(* C13 relative_name_roundtrip: what serialise_domain wrote for a name is read back as that
+   name under the origin in force -- relative to the apex, "@", or absolute (root apex, not
+   authoritative, outside the apex, or the relative part being the single label "@") *)
+Theorem dom_text_parse z name : name_ok (z_apex z) -> name_ok name ->
+  parse_domain (zorigin z) (dom_text z name) = Ok name.
+Proof.
+  intros Ha Hn. destruct (dom_text_case z name Ha Hn) as [Hc _].
+  destruct Hc as [|Ho|pre afront Ho En Hane Hpne Hat].
+  - apply parse_domain_abs. exact Hn.
+  - rewrite Ho. apply parse_domain_at.
+  - rewrite Ho, En. apply parse_domain_rel; try assumption; [rewrite <- En; exact Hn|].
+    unfold zorigin in Ho. destruct (zone_is_authoritative z && negb (is_root (z_apex z))); [|discriminate].
+    injection Ho as E. rewrite <- E. exact Ha.
+Qed.
+
+(* in owner position: an ordinary owner whose leftmost label is not "*" ... *)
+Theorem dom_text_owner z name : name_ok (z_apex z) -> name_ok name -> first_label name <> S_STAR ->
+  parse_domain_or_wildcard (zorigin z) (dom_text z name) = Ok (MNormal name).
+Proof.
+  intros Ha Hn Hfl.
+  assert (Hns : dom_text z name <> [] /\ dom_text z name <> S_STAR /\ forall t, dom_text z name <> 42 :: 46 :: t).
+  { destruct (dom_text_case z name Ha Hn) as [Hc _].
+    destruct (name_ok_dest _ Hn) as (nf & En' & Hnf & Hna & _).
+    destruct Hc as [|Ho|pre afront Ho En Hane Hpne Hat].
+    - subst name. destruct nf as [|l0 f] eqn:E.
+      + change (to_dotted_string (mk [])) with [46]. repeat split; discriminate.
+      + rewrite <- E in *. rewrite to_dotted_mk by (try assumption; subst; discriminate). subst nf.
+        rewrite dotjoin_cons. unfold good_front in Hnf. apply Forall_cons_iff in Hnf as [[Hl0 _] _]. apply Forall_cons_iff in Hna as [Hal0 _].
+        apply not_star_text; [exact Hl0|exact Hfl|apply ascii_label_nodot; exact Hal0|right; eauto].
+    - repeat split; discriminate.
+    - rewrite En in En'. apply mk_inj in En'. subst nf.
+      destruct pre as [|l0 p]; [contradiction|]. unfold good_front in Hnf. cbn [app] in Hnf, Hna.
+      apply Forall_cons_iff in Hnf as [[Hl0 _] _]. apply Forall_cons_iff in Hna as [Hal0 _].
+      assert (Hfl' : l0 <> S_STAR) by (rewrite En in Hfl; exact Hfl).
+      destruct p as [|l1 p].
+      + cbn [join_dots]. rewrite <- (app_nil_r l0). apply not_star_text; [exact Hl0|exact Hfl'|apply ascii_label_nodot; exact Hal0|left; reflexivity].
+      + change (join_dots (l0 :: l1 :: p)) with (l0 ++ 46 :: join_dots (l1 :: p)).
+        apply not_star_text; [exact Hl0|exact Hfl'|apply ascii_label_nodot; exact Hal0|right; eauto]. }
+  destruct Hns as (H1 & H2 & H3). rewrite (pdw_plain _ _ H1 H2 H3), (dom_text_parse z name Ha Hn). cbn [bind].
+  apply normal_or_star_normal. exact Hfl.
+Qed.
+
+(* ... and "*." before it is the wildcard at that name *)
+Theorem dom_text_wild z name : name_ok (z_apex z) -> name_ok name ->
+  parse_domain_or_wildcard (zorigin z) (42 :: 46 :: dom_text z name) = Ok (MWildcard name).
+Proof.
+  intros Ha Hn. rewrite pdw_star_dot by (apply (dom_text_lc z name Ha Hn)).
+  rewrite (dom_text_parse z name Ha Hn). reflexivity.
+Qed.
+
+(* ====================================================================== *)
+(* RDATA                                                                   *)
+(* ====================================================================== *)
+
+Definition v6_ok (g : list N) : Prop := length g = 8%nat /\ Forall (fun x => x < 65536) g.
+
+(* what the address codec must satisfy: Display then FromStr is the identity, and Display
+   writes characters that need no escaping (proved for Ip/IpModel.v in ZoneRoundTrip.v) *)
+Definition codec_rt (ip : ipcodec) : Prop :=
+  (forall a, a < 4294967296 -> parse_v4 ip (show_v4 ip a) = Some a /\ plain_token (show_v4 ip a) = true) /\
+  (forall g, v6_ok g -> parse_v6 ip (show_v6 ip g) = Some g /\ plain_token (show_v6 ip g) = true).
+
+(* RDATA the zone-file syntax can express: names as above, integers in their ranges, octet
+   strings of octets *)
+Definition rdata_ok (d : rdata) : Prop :=
+  match d with
+  | RD_A a => a < 4294967296
+  | RD_Name n => name_ok n
+  | RD_SOA m r a b c d e =>
+    name_ok m /\ name_ok r /\ a < 4294967296 /\ b < 4294967296 /\ c < 4294967296 /\ d < 4294967296 /\ e < 4294967296
+  | RD_Octets os => octets os
+  | RD_MINFO r e => name_ok r /\ name_ok e
+  | RD_MX p e => p < 65536 /\ name_ok e
+  | RD_AAAA g => v6_ok g
+  | RD_SRV p w po t => p < 65536 /\ w < 65536 /\ po < 65536 /\ name_ok t
+  end.
+
+Definition nouppb (s : list N) : bool := forallb (fun c => negb (is_upper c)) s.
+Lemma noupper_b s : noupper s -> nouppb s = true.
+Proof.
+  intro H. apply forallb_forall. intros c Hc. unfold noupper in H. rewrite Forall_forall in H.
+  rewrite (H c Hc). reflexivity.
+Qed.
+
+Lemma noupper_keywords s : noupper s ->
+  leqb s S_ORIGIN = false /\ leqb s S_INCLUDE = false /\ leqb s S_IN = false.
+Proof.
+  intro H. apply noupper_b in H.
+  repeat split; apply leqb_false; intro E; subst s; vm_compute in H; discriminate.
+Qed.
+
+Ltac nclosed :=
+  repeat match goal with
+         | |- context [N.eqb ?a ?b] =>
+           let v := eval vm_compute in (N.eqb a b) in
+           lazymatch v with true => idtac | false => idtac end;
+           change (N.eqb a b) with v
+         end.
+
+Lemma line_shape (X P A B C R : list N) :
+  (X ++ P) ++ sp ++ A ++ sp ++ B ++ sp ++ C ++ sp ++ R ++ nl
+  = (X ++ P ++ (32 :: A) ++ (32 :: B) ++ (32 :: C) ++ 32 :: R) ++ [10].
+Proof. unfold sp, nl. repeat rewrite <- app_assoc. cbn [app]. repeat rewrite <- app_assoc. reflexivity. Qed.
+
+Section WithCodec.
+  Variable ip : ipcodec.
+  Hypothesis Hip : codec_rt ip.
+
+  Definition nm (z : zone) (n : dname) : atom := AUnq (dom_text z n).
+  Definition num (n : N) : atom := ARaw (show_dec n).
+
+  (* the tokens of an RDATA *)
+  Definition rd_atoms (z : zone) (d : rdata) : list atom :=
+    match d with
+    | RD_A a => [ARaw (show_v4 ip a)]
+    | RD_Name n => [nm z n]
+    | RD_SOA m r a b c d e => [nm z m; nm z r; num a; num b; num c; num d; num e]
+    | RD_Octets os => [AQuo os]
+    | RD_MINFO r e => [nm z r; nm z e]
+    | RD_MX p e => [num p; nm z e]
+    | RD_AAAA g => [ARaw (show_v6 ip g)]
+    | RD_SRV p w po t => [num p; num w; num po; nm z t]
+    end.
+
+  Lemma nm_ok z n : name_ok (z_apex z) -> name_ok n -> atom_ok (nm z n).
+  Proof.
+    intros Ha Hn. destruct (dom_text_lc z n Ha Hn) as [Hne Hlc]. split; [apply lc_octets; exact Hlc|exact Hne].
+  Qed.
+  Lemma num_ok n : atom_ok (num n).
+  Proof. apply show_dec_plain. Qed.
+
+  Lemma rd_atoms_ok z d : name_ok (z_apex z) -> rdata_ok d -> Forall atom_ok (rd_atoms z d) /\ rd_atoms z d <> [].
+  Proof.
+    intros Ha Hd. split; [|destruct d; discriminate].
+    destruct d; cbn [rd_atoms rdata_ok] in *;
+      repeat match goal with H : _ /\ _ |- _ => destruct H end;
+      repeat first [apply Forall_nil | apply Forall_cons]; try apply num_ok; try (apply nm_ok; assumption).
+    - exact (proj2 (proj1 Hip _ Hd)).
+    - exact Hd.
+    - exact (proj2 (proj2 Hip _ Hd)).
+  Qed.
+
+  (* serialise_rdata writes these tokens separated by single spaces *)
+  Lemma rdata_text z d : name_ok (z_apex z) -> rdata_ok d ->
+    serialise_rdata ip z d = Ok (render_simple (map atom_text (rd_atoms z d))).
+  Proof.
+    intros Ha Hd.
+    destruct d; cbn [rd_atoms rdata_ok serialise_rdata] in *;
+      repeat match goal with H : _ /\ _ |- _ => destruct H end;
+      rewrite ?serialise_domain_text by assumption; cbn [bind]; reflexivity.
+  Qed.
+
+  Ltac rd_finish Ha :=
+    cbn [rd_atoms map atom_tok nm num len_is idx nth_error bind fst snd dup];
+    rewrite ?(fun n Hn => dom_text_parse _ n Ha Hn) by assumption;
+    rewrite ?show_dec_parse by (unfold U32_MAX, U16_MAX; lia);
+    cbn [opt_of_res bind]; try reflexivity.
+
+  (* ... and the parser reads type + these tokens back as the RDATA, for the 18 types *)
+  Lemma rdata_parse z ty d :
+    name_ok (z_apex z) -> rtype_known ty = true -> shape_of_rdata d = shape_of_type ty -> rdata_ok d ->
+    try_parse_rtype_with_data ip (zorigin z) (map dup (show_rtype ty :: map atom_tok (rd_atoms z d))) = Ok (Some (ty, d)).
+  Proof.
+    intros Ha Hk Hs Hd. unfold try_parse_rtype_with_data. cbn [map is_nil idx nth_error bind].
+    change (fst (dup (show_rtype ty))) with (show_rtype ty). rewrite (show_rtype_parse ty Hk).
+    apply known_cases in Hk. unfold known_types in Hk.
+    repeat (destruct Hk as [<-|Hk];
+            [ destruct d; cbv in Hs; try discriminate Hs; cbn [rdata_ok] in Hd;
+              repeat match goal with H : _ /\ _ |- _ => destruct H end;
+              cbv [is_name_type is_octets_type]; nclosed; cbn [orb andb negb]; rd_finish Ha | ]);
+      try destruct Hk.
+    - (* A *) rewrite (proj1 (proj1 Hip addr Hd)). reflexivity.
+    - (* AAAA *) rewrite (proj1 (proj2 Hip segs Hd)). reflexivity.
+  Qed.
+
+  (* ---- one record line ---- *)
+
+  Lemma parse_rr_5 origin pd pt o ttl ty rd td w n :
+    try_parse_rtype_with_data ip origin (ty :: rd) = Ok (Some td) ->
+    parse_domain_or_wildcard origin (fst o) = Ok w -> uint_from_str U32_MAX (fst ttl) = Some n ->
+    parse_rr ip origin pd pt (o :: ttl :: T_IN :: ty :: rd) = Ok (to_rr w td n).
+  Proof.
+    intros Htd Hw Hn. unfold parse_rr. cbn [is_nil].
+    unfold try_from at 1. cbn [len_ge slice_from skipn bind]. rewrite Htd. cbn [bind].
+    unfold parse_rr_4. cbn [idx nth_error bind]. rewrite Hw. cbn [bind].
+    change (leqb (fst T_IN) S_IN) with true. cbn iota. unfold parse_u32. rewrite Hn. reflexivity.
+  Qed.
+
+  Lemma parse_entry_rr origin pd pt s t0 toks rest :
+    tokenise_entry s = Ok (t0 :: toks, rest) -> leqb (fst t0) S_ORIGIN = false -> leqb (fst t0) S_INCLUDE = false ->
+    parse_entry ip origin pd pt s = let* e := parse_rr ip origin pd pt (t0 :: toks) in Ok (Some e, rest).
+  Proof.
+    intros Ht H1 H2. unfold parse_entry. cbn [parse_entry_loop]. rewrite Ht.
+    cbn [bind fst snd is_nil idx nth_error]. rewrite H1, H2. reflexivity.
+  Qed.
+
+  (* a record the zone-file syntax can express *)
+  Definition zrec_ok (zr : zrec) : Prop :=
+    rtype_known (zr_type zr) = true /\ shape_of_rdata (zr_data zr) = shape_of_type (zr_type zr)
+    /\ rdata_ok (zr_data zr) /\ zr_ttl zr < 4294967296.
+
+  Definition rec_entry (w : mwild) (zr : zrec) : entry := to_rr w (zr_type zr, zr_data zr) (zr_ttl zr).
+
+  Ltac lnorm := unfold sp, nl; repeat (rewrite <- app_assoc || rewrite app_nil_r); cbn [app].
+
+  (* "<owner>[  ] <ttl> IN <TYPE> <rdata>\n" is parsed back to the record, whatever owner and
+     TTL the previous record had *)
+  Lemma record_line_entry z otxt pad w zr :
+    name_ok (z_apex z) -> zrec_ok zr -> octets otxt -> otxt <> [] -> noupper otxt ->
+    parse_domain_or_wildcard (zorigin z) otxt = Ok w ->
+    exists body, record_line ip z (serialise_octets otxt false ++ repeat 32 pad) zr = Ok (body ++ [10]) /\
+      forall pd pt rest, parse_entry ip (zorigin z) pd pt (body ++ 10 :: rest) = Ok (Some (rec_entry w zr), rest).
+  Proof.
+    intros Ha (Hk & Hs & Hd & Httl) Ho Hone Hnu Hw.
+    destruct (rd_atoms_ok z _ Ha Hd) as [Hrok Hrne].
+    exists (line_text (AUnq otxt) pad ([num (zr_ttl zr); ARaw S_IN; ARaw (show_rtype (zr_type zr))] ++ rd_atoms z (zr_data zr))).
+    split.
+    - unfold record_line. rewrite (rdata_text z _ Ha Hd). cbn [bind]. f_equal.
+      unfold line_text. rewrite flat_map_app. cbn [flat_map atom_text num]. rewrite (tail_text _ Hrne).
+      lnorm. reflexivity.
+    - intros pd pt rest.
+      assert (Hrest : Forall atom_ok ([num (zr_ttl zr); ARaw S_IN; ARaw (show_rtype (zr_type zr))] ++ rd_atoms z (zr_data zr))).
+      { apply Forall_app. split; [|exact Hrok]. repeat constructor; [apply num_ok|apply show_rtype_plain; exact Hk]. }
+      pose proof (tokenise_atoms (AUnq otxt) pad _ rest (conj Ho Hone) Hrest) as Ht.
+      cbn [map atom_tok app num] in Ht.
+      destruct (noupper_keywords otxt Hnu) as (K1 & K2 & _).
+      rewrite (parse_entry_rr _ _ _ _ _ _ _ Ht K1 K2).
+      pose proof (rdata_parse z _ _ Ha Hk Hs Hd) as Htd. cbn [map] in Htd.
+      assert (Hn : uint_from_str U32_MAX (show_dec (zr_ttl zr)) = Some (zr_ttl zr))
+        by (apply show_dec_parse; [exact Httl|unfold U32_MAX; lia]).
+      pose proof (parse_rr_5 (zorigin z) pd pt (dup otxt) (dup (show_dec (zr_ttl zr))) (dup (show_rtype (zr_type zr)))
+                             (map dup (map atom_tok (rd_atoms z (zr_data zr)))) (zr_type zr, zr_data zr) w (zr_ttl zr)
+                             Htd Hw Hn) as H5.
+      match goal with
+      | |- bind ?X _ = _ => replace X with (@Ok zerr entry (to_rr w (zr_type zr, zr_data zr) (zr_ttl zr))) by (symmetry; exact H5)
+      end. reflexivity.
+  Qed.
+
+  (* ---- the SOA line and the $ORIGIN line ---- *)
+
+  Definition soa_ok (s : soa) : Prop := rdata_ok (soa_to_rdata s).
+
+  Definition soa_rr (apex : dname) (s : soa) : rr :=
+    {| rr_name := apex; rr_type := RT_SOA; rr_class := RC_IN; rr_ttl := soa_minimum s; rr_data := soa_to_rdata s |}.
+
+  Lemma is_root_root n : name_ok n -> is_root n = true -> n = root_domain.
+  Proof.
+    intros Hn Hr. destruct (name_ok_dest n Hn) as (front & -> & Hf & _ & _).
+    destruct front as [|l f]; [reflexivity|]. unfold mk in Hr. rewrite is_root_front in Hr by (try assumption; discriminate). discriminate.
+  Qed.
+
+  (* "@ IN SOA ..." (apex not the root) / ". IN SOA ..." *)
+  Lemma soa_line_entry z s :
+    name_ok (z_apex z) -> soa_ok s -> first_label (z_apex z) <> S_STAR -> z_soa z = Some s ->
+    exists body,
+      (let* rd := serialise_rdata ip z (soa_to_rdata s) in
+       Ok ((if negb (is_root (z_apex z)) then S_AT else serialise_octets (utf8 (to_dotted_string (z_apex z))) false)
+             ++ sp ++ S_IN ++ sp ++ S_SOA ++ sp ++ rd ++ nl)) = Ok (body ++ [10]) /\
+      forall pd pt rest, parse_entry ip (zorigin z) pd pt (body ++ 10 :: rest) = Ok (Some (ERR (soa_rr (z_apex z) s)), rest).
+  Proof.
+    intros Ha Hs Hfl Hz. unfold soa_ok in Hs.
+    destruct (rd_atoms_ok z _ Ha Hs) as [Hrok Hrne].
+    set (a0 := if negb (is_root (z_apex z)) then ARaw S_AT else AUnq [46]).
+    exists (line_text a0 0 ([ARaw S_IN; ARaw S_SOA] ++ rd_atoms z (soa_to_rdata s))).
+    assert (Ha0 : atom_ok a0).
+    { unfold a0. destruct (negb (is_root (z_apex z))); [reflexivity|]. split; [repeat constructor; lia|discriminate]. }
+    assert (Eroot : is_root (z_apex z) = true -> z_apex z = root_domain) by (apply is_root_root; exact Ha).
+    split.
+    - rewrite (rdata_text z _ Ha Hs). cbn [bind]. f_equal.
+      unfold line_text. rewrite flat_map_app. cbn [flat_map atom_text repeat]. rewrite (tail_text _ Hrne).
+      unfold a0. destruct (is_root (z_apex z)) eqn:Er; cbn [negb atom_text].
+      + rewrite (Eroot eq_refl). change (utf8 (to_dotted_string root_domain)) with [46]. lnorm. reflexivity.
+      + lnorm. reflexivity.
+    - intros pd pt rest.
+      assert (Hrest : Forall atom_ok ([ARaw S_IN; ARaw S_SOA] ++ rd_atoms z (soa_to_rdata s))).
+      { apply Forall_app. split; [|exact Hrok]. repeat constructor. }
+      pose proof (tokenise_atoms a0 0 _ rest Ha0 Hrest) as Ht. cbn [map atom_tok app] in Ht.
+      assert (Hauth : zone_is_authoritative z = true) by (unfold zone_is_authoritative; rewrite Hz; reflexivity).
+      (* the owner token and what it denotes *)
+      assert (Hown : noupper (atom_tok a0) /\ all_digits (atom_tok a0) = false /\
+                     parse_domain_or_wildcard (zorigin z) (atom_tok a0) = Ok (MNormal (z_apex z))).
+      { unfold a0, zorigin. rewrite Hauth. destruct (is_root (z_apex z)) eqn:Er; cbn [negb andb atom_tok].
+        - rewrite (Eroot eq_refl). split; [repeat constructor|]. split; reflexivity.
+        - split; [repeat constructor|]. split; [reflexivity|].
+          rewrite pdw_plain by discriminate. rewrite parse_domain_at. cbn [bind]. apply normal_or_star_normal. exact Hfl. }
+      destruct Hown as (Hnu & Had & Hpdw).
+      destruct (noupper_keywords _ Hnu) as (K1 & K2 & K3).
+      rewrite (parse_entry_rr _ _ _ _ _ _ _ Ht K1 K2).
+      assert (Hk : rtype_known RT_SOA = true) by reflexivity.
+      pose proof (rdata_parse z RT_SOA (soa_to_rdata s) Ha Hk eq_refl Hs) as Htd.
+      change (show_rtype RT_SOA) with S_SOA in Htd. cbn [map] in Htd.
+      assert (Hf : parse_rr ip (zorigin z) pd pt
+                            (shape_tokens ShOwnerClass (dup (atom_tok a0)) (dup [48]) (dup S_SOA)
+                                          (map dup (map atom_tok (rd_atoms z (soa_to_rdata s)))))
+                   = denote_rr ShOwnerClass (zorigin z) pd pt (dup (atom_tok a0)) 0 (RT_SOA, soa_to_rdata s)).
+      { apply parse_rr_forms; [exact Htd| |exact Had|exact K3|reflexivity|reflexivity].
+        intros q Hq. cbn [type_pos] in Hq. assert (q = 3%nat) by lia. subst q. apply try_from_not_type.
+        cbn [shape_tokens nth_error rd_atoms soa_to_rdata map atom_tok nm dup fst].
+        apply noupper_not_type. apply lc_noupper. apply (dom_text_lc z (soa_mname s) Ha). apply Hs. }
+      match goal with
+      | |- bind ?X _ = _ =>
+        replace X with (denote_rr ShOwnerClass (zorigin z) pd pt (dup (atom_tok a0)) 0 (RT_SOA, soa_to_rdata s))
+          by (symmetry; exact Hf)
+      end.
+      unfold denote_rr. cbn [has_owner has_ttl fst dup]. rewrite Hpdw. cbn [bind].
+      unfold with_prev_ttl. destruct pt; cbn [fst]; [|change (RT_SOA =? RT_SOA) with true; cbn iota];
+        unfold to_rr, soa_rr, soa_to_rdata; cbn [fst snd bind]; reflexivity.
+  Qed.
+
+  (* "$ORIGIN <apex>" *)
+  Lemma origin_line_entry apex origin :
+    name_ok apex ->
+    forall pd pt rest,
+      parse_entry ip origin pd pt ((S_ORIGIN ++ sp ++ serialise_octets (utf8 (to_dotted_string apex)) false) ++ 10 :: rest)
+      = Ok (Some (EOrigin apex), rest).
+  Proof.
+    intros Ha pd pt rest.
+    pose proof (to_dotted_lc apex Ha) as Hlc. rewrite (lc_utf8 _ Hlc).
+    destruct (to_dotted_last apex Ha) as [X EX].
+    assert (Ha1 : atom_ok (AUnq (to_dotted_string apex))).
+    { split; [apply lc_octets; exact Hlc|rewrite EX; destruct X; discriminate]. }
+    pose proof (tokenise_atoms (ARaw S_ORIGIN) 0 [AUnq (to_dotted_string apex)] rest eq_refl (Forall_cons _ Ha1 (Forall_nil _))) as Ht.
+    unfold line_text in Ht. cbn [flat_map atom_text repeat map atom_tok] in Ht.
+    replace ((S_ORIGIN ++ sp ++ serialise_octets (to_dotted_string apex) false) ++ 10 :: rest)
+      with ((S_ORIGIN ++ [] ++ (32 :: serialise_octets (to_dotted_string apex) false) ++ []) ++ 10 :: rest)
+      by (lnorm; reflexivity).
+    unfold parse_entry. cbn [parse_entry_loop]. rewrite Ht. cbn [bind fst snd is_nil idx nth_error dup].
+    change (leqb S_ORIGIN S_ORIGIN) with true. cbn iota.
+    unfold parse_origin. cbn [len_is negb idx nth_error bind fst dup].
+    change (leqb S_ORIGIN S_ORIGIN) with true. cbn [negb]. rewrite (parse_domain_abs origin apex Ha). reflexivity.
+  Qed.
+End WithCodec.
